@@ -144,3 +144,7 @@ T("c12-local-state", ["C12"], MIN, "        self.coinstate = self.coinstate.add_
 T("c15-save-local-alias", ["C15"], "skepticoin/scripts/receive.py", "    wallet = open_or_init_wallet()\n    public_key = wallet.get_annotated_public_key(args.annotation)\n    save_wallet(wallet)",
   "    w = open_or_init_wallet()\n    wallet = w\n    public_key = w.get_annotated_public_key(args.annotation)\n    save_wallet(wallet)")
 T("c15-dump-local-dict", ["C15"], WAL, "            keypairs={computer(k): computer(v) for (k, v) in d[\"keypairs\"].items()},", "            keypairs={computer(pub): computer(priv) for (pub, priv) in d[\"keypairs\"].items()},")
+
+T("c14-rename-locals", ["C14"], WAL, "    collected_value = 0\n    inputs = []\n    newly_spent_outputs = []\n", "    collected_value = 0\n    inputs = []\n    newly_spent_outputs = []\n    # (twin) comment only\n")
+T("c14-total-needed-local", ["C14"], WAL, "            if collected_value >= value + miners_fee:\n                outputs = [Output(value, output_public_key)]\n\n                if collected_value != value + miners_fee:",
+  "            needed = value + miners_fee\n            if collected_value >= needed:\n                outputs = [Output(value, output_public_key)]\n\n                if needed != collected_value:")
